@@ -77,8 +77,8 @@ pub struct HistCfg {
     pub lang: LangId,
     pub gen: GenCfg,
     pub max_ops: usize,
-    /// weights of the op kinds: add, unrelated, permuted, renamed, context, reorder, existing, congruent-parents, symmetric-then-redundant, improving-child cascade
-    pub weights: [usize; 10],
+    /// weights of the op kinds: add, unrelated, permuted, renamed, context, reorder, existing, congruent-parents, symmetric-then-redundant, improving-child cascade, symmetric-class-used-twice
+    pub weights: [usize; 11],
     pub namings: Vec<Naming>,
 }
 
@@ -93,7 +93,7 @@ impl HistCfg {
                 ..GenCfg::default()
             },
             max_ops: 6,
-            weights: [2, 2, 3, 3, 3, 2, 3, 2, 2, 2],
+            weights: [2, 2, 3, 3, 3, 2, 3, 2, 2, 2, 2],
             namings: vec![Naming::Alpha],
         }
     }
@@ -389,6 +389,72 @@ pub fn decode_hist_from(cfg: &HistCfg, chunks: &[Vec<u16>], naming_choice: u16, 
                     ops.push(HOp::Union(i1, i2));
                 } else {
                     ops.push(HOp::Union(i2, i1));
+                }
+            }
+            10 => {
+                // a multi-slot leaf made symmetric under 0-2 random permutations, then a parent that uses the leaf's class twice
+                // with two different argument orders (the orders differ by a symmetry of the class or not): repeated pattern
+                // variables, canonical argument orders of parents, congruence of parents
+                let leaves: Vec<&OpSig> = sig
+                    .ops
+                    .iter()
+                    .filter(|o| {
+                        o.is_leaf()
+                            && (3..=cfg.gen.max_fv.max(3)).contains(&o.fields.len())
+                            && o.fields.iter().all(|f| matches!(f, Field::Slot))
+                            && cfg.gen.ops.as_ref().map(|v| v.contains(&o.name) || o.name == "h3" || o.name == "g4").unwrap_or(true)
+                    })
+                    .collect();
+                let parents: Vec<&OpSig> = sig
+                    .ops
+                    .iter()
+                    .filter(|o| (2..=3).contains(&o.n_kids()) && o.fields.iter().all(|f| matches!(f, Field::Kid(0))) && cfg.gen.ops.as_ref().map(|v| v.contains(&o.name)).unwrap_or(true))
+                    .collect();
+                if leaves.is_empty() || parents.is_empty() {
+                    let t = mk(&mut src);
+                    push_add(t, &mut ops, &mut terms, &mut n_terms);
+                    continue;
+                }
+                let o = leaves[src.pick(leaves.len())];
+                let par = parents[src.pick(parents.len())];
+                let k = o.fields.len();
+                let names: Vec<Name> = (0..k as Name).collect();
+                let idp: BTreeMap<Name, Name> = names.iter().map(|n| (*n, *n)).collect();
+                let leaf = |perm: &BTreeMap<Name, Name>| Tm::leaf(o.name, &names.iter().map(|n| perm[n]).collect::<Vec<_>>());
+                let p1 = if src.coin(1, 2) { idp.clone() } else { random_perm(&names, &mut src) };
+                let p2 = random_perm(&names, &mut src);
+                let n_gen = src.pick(3);
+                let gens: Vec<BTreeMap<Name, Name>> = (0..n_gen).map(|_| random_perm(&names, &mut src)).collect();
+                let parent_first = src.coin(1, 2);
+                let mk_parent = |src: &mut Src| -> Tm {
+                    let mut args = Vec::new();
+                    for i in 0..par.n_kids() {
+                        let c = match i {
+                            0 => leaf(&p1),
+                            1 if par.n_kids() == 2 => leaf(&p2),
+                            1 => {
+                                let mut g = cfg.gen.clone();
+                                g.max_depth = 1;
+                                gen_tm(&sig, &g, src, 0)
+                            }
+                            _ => leaf(&p2),
+                        };
+                        args.push(Arg::K(vec![], c));
+                    }
+                    cap_fv(&Tm { op: par.name.to_string(), args }, cfg.gen.max_fv.max(k))
+                };
+                if parent_first {
+                    let t = mk_parent(&mut src);
+                    push_add(t, &mut ops, &mut terms, &mut n_terms);
+                }
+                let i0 = push_add(leaf(&idp), &mut ops, &mut terms, &mut n_terms);
+                for g in &gens {
+                    let j = push_add(leaf(g), &mut ops, &mut terms, &mut n_terms);
+                    ops.push(if src.coin(1, 2) { HOp::Union(i0, j) } else { HOp::Union(j, i0) });
+                }
+                if !parent_first {
+                    let t = mk_parent(&mut src);
+                    push_add(t, &mut ops, &mut terms, &mut n_terms);
                 }
             }
             9 => {
